@@ -144,8 +144,8 @@ class Unit:
         self.dir = os.path.join(VERIF, 'units', name)
         self.conf = json.load(open(os.path.join(self.dir, 'unit.json')))
         self.specs = {}
-        sp = os.path.join(self.dir, 'specs.txt')
-        if os.path.exists(sp):
+        for spn in sorted(x for x in os.listdir(self.dir) if x.startswith('specs') and x.endswith('.txt')):
+            sp = os.path.join(self.dir, spn)
             for fs in spec.parse_specs(open(sp).read(), sp):
                 self.specs[(fs.kind, fs.path)] = fs
         self.emitted = []
@@ -226,6 +226,17 @@ class Unit:
                         rew.append(('R1', n))
                 line = src.count('\n', 0, it.kw_a) + 1
                 em = Emitted(path, kind, ent['file'], line, txt, rew)
+                lifted_ems = []
+                for (lname, ltxt) in (getattr(fs, 'lifted', []) if fs is not None else []):
+                    lfs = self.specs.get(('fn', lname))
+                    lrew = [('R7', 'body is the closure cut from %s' % path)]
+                    if mutate is not None:
+                        ltxt = mutate(lname, ltxt)
+                    if lfs is not None:
+                        used_specs.add(('fn', lname))
+                        ltxt, rw = spec.inject(ltxt, lfs)
+                        lrew.extend(rw)
+                    lifted_ems.append(Emitted(lname, 'fn', ent['file'], line, ltxt, lrew))
                 hdr = None
                 if it.parent is not None and it.parent.kind == 'impl':
                     hdr = (it.parent.a, ' '.join(it.parent.header.split()))
@@ -236,6 +247,8 @@ class Unit:
                     groups[-1][1].append(em)
                 else:
                     groups.append((hdr, [em]))
+                for lem in lifted_ems:
+                    groups.append((None, [lem]))
             for hdr, ems in groups:
                 if hdr is not None:
                     out.append(hdr[1] + ' {')
